@@ -1,12 +1,12 @@
 (* Proofs about the Portal machine: an inductive invariant for EVERY op sequence and the C15 clauses.
    reach f4 fc s  :=  s is the state after some op list from `init f4 fc`;  the code under test is
-   `init true true` (both repairs present); `init false _` / `init _ false` are the pinned variants. *)
+   `init true true true` (both repairs present); `init false _` / `init _ false` are the pinned variants. *)
 From AV Require Import Base Portal.
 
-Definition reach (f4 fc : bool) (s : st) : Prop := exists ops, s = final step (init f4 fc) ops.
+Definition reach (f4 fc : bool) (s : st) : Prop := exists fn ops, s = final step (init f4 fc fn) ops.
 
 Lemma reach_step f4 fc s o : reach f4 fc s -> reach f4 fc (fst (step s o)).
-Proof. intros [ops ->]. exists (ops ++ [o]). rewrite final_app. reflexivity. Qed.
+Proof. intros (fn & ops & ->). exists fn, (ops ++ [o]). rewrite final_app. reflexivity. Qed.
 
 (* ---------- phase classes ---------- *)
 Definition landedp (p : cphase) : bool :=
@@ -44,7 +44,8 @@ Record CInv (c : call) : Prop := {
   CI_scope : c_scope_cancelled c = true -> c_fut c = CCancelled /\ c_captured c = true;
   CI_inflight : c_inflight c = true -> c_fut c = CCancelled /\ c_fcancel c = true /\ c_captured c = true;
   CI_noscope : enteredp (c_phase c) = false -> c_scope_cancelled c = false /\ c_inflight c = false;
-  CI_basefail : donep (c_phase c) = false -> c_base_fail c = false
+  CI_basefail : donep (c_phase c) = false -> c_base_fail c = false;
+  CI_notified : c_notified c = true -> c_fut c = CCancelled /\ donep (c_phase c) = true
 }.
 
 Ltac dmatch :=
@@ -64,7 +65,7 @@ Ltac close := solve [ reflexivity | discriminate | tauto | congruence | lia
                     | eexists; split; [reflexivity|cbn; intuition (try congruence)] ].
 
 Lemma cinv_fresh kd p : landedp p = false -> enteredp p = false -> donep p = false ->
-  CInv (mkcall kd p CPending CPending 0 false false false false false None None false 0).
+  CInv (mkcall kd p CPending CPending 0 false false false false false None None false 0 false).
 Proof.
   intros H1 H2 H3. constructor; cbn.
   all: try rewrite H2; try rewrite H3; try rewrite H1; close.
@@ -77,14 +78,14 @@ Ltac cinv_start H :=
   let H4 := fresh "Hopen" in let H5 := fresh "Hclosed" in let H6 := fresh "Hkind" in
   let H7 := fresh "Hstarted" in let H8 := fresh "Hstatus" in let H9 := fresh "Hearly" in
   let H10 := fresh "Hscope" in let H11 := fresh "Hinfl" in let H12 := fresh "Hnoscope" in
-  let H13 := fresh "Hbasefail" in
-  destruct H as [H1 H2 H3 H4 H5 H6 H7 H8 H9 H10 H11 H12 H13].
+  let H13 := fresh "Hbasefail" in let H14 := fresh "Hnotified" in
+  destruct H as [H1 H2 H3 H4 H5 H6 H7 H8 H9 H10 H11 H12 H13 H14].
 
 Lemma cinv_status_on_done c :
   CInv c -> landedp (c_phase c) = true -> c_fut c <> CPending -> CInv (status_on_done c).
 Proof.
   intros H Hl Hf. cinv_start H.
-  destruct c as [kd ph fu stt ex cap sc inf bf inv out sta fcn asg]; cbn in *.
+  destruct c as [kd ph fu stt ex cap sc inf bf inv out sta fcn asg ntf]; cbn in *.
   unfold status_on_done; cbn.
   destruct kd; try (constructor; cbn; assumption).
   destruct stt; cbn; try (constructor; cbn; assumption).
@@ -96,8 +97,8 @@ Qed.
 (* ---------- frame facts: which fields a helper can change ---------- *)
 Ltac frame_tac c :=
   cbv zeta;
-  destruct c as [kd ph fu stt ex cap sc inf bf inv out sta fcn asg];
-  unfold finish_ret, finish_exc, finish_cancelled, finish_cancel_own, fut_set, status_on_done, future_cancel, callback_registered,
+  destruct c as [kd ph fu stt ex cap sc inf bf inv out sta fcn asg ntf];
+  unfold finish_ret, finish_exc, finish_cancelled, finish_cancel_own, notify, fut_set, status_on_done, future_cancel, callback_registered,
          apply_started, is_pending, is_cancelled in *; cbn in *; repeat (progress dmatch; cbn in * );
   try discriminate; auto 10.
 
@@ -174,7 +175,7 @@ Lemma future_cancel_frame c c' r : future_cancel c = (c', r) ->
   c_kind c' = c_kind c /\ c_phase c' = c_phase c /\ c_execs c' = c_execs c /\ c_captured c' = c_captured c /\
   c_scope_cancelled c' = c_scope_cancelled c.
 Proof.
-  destruct c as [kd ph fu stt ex cap sc inf bf inv out sta fcn asg].
+  destruct c as [kd ph fu stt ex cap sc inf bf inv out sta fcn asg ntf].
   unfold future_cancel, status_on_done, callback_registered, is_pending; cbn.
   destruct fu; cbn; try solve [intros [= <- <-]; cbn; auto 10].
   destruct kd; cbn; try solve [intros [= <- <-]; cbn; auto 10].
@@ -200,7 +201,7 @@ Proof. destruct c; reflexivity. Qed.
 Lemma rinv_started c sv c1 : RInv c -> apply_started c sv = Some c1 -> RInv c1.
 Proof.
   unfold RInv, apply_started. intros H. destruct sv as [v|]; [|intros [= <-]; exact H].
-  cinv_start H. destruct c as [kd ph fu stt ex cap sc inf bf inv out sta fcn asg]; cbn in *.
+  cinv_start H. destruct c as [kd ph fu stt ex cap sc inf bf inv out sta fcn asg ntf]; cbn in *.
   destruct kd; try discriminate. destruct stt; cbn; try discriminate. intros [= <-].
   constructor; cbn; cfield.
 Qed.
@@ -208,7 +209,7 @@ Qed.
 Lemma rinv_finish_ret c v : RInv c -> CInv (finish_ret c v).
 Proof.
   unfold RInv. intros H. cinv_start H.
-  destruct c as [kd ph fu stt ex cap sc inf bf inv out sta fcn asg]; cbn in *.
+  destruct c as [kd ph fu stt ex cap sc inf bf inv out sta fcn asg ntf]; cbn in *.
   destruct (Hopen eq_refl) as [Hout [Hfu|[Hfu Hfc]]]; subst.
   - unfold finish_ret, fut_set, status_on_done; cbn.
     destruct kd; cbn; [constructor; cbn; cfield|constructor; cbn; cfield|].
@@ -219,7 +220,7 @@ Qed.
 Lemma rinv_finish_exc c e : RInv c -> CInv (finish_exc c e).
 Proof.
   unfold RInv. intros H. cinv_start H.
-  destruct c as [kd ph fu stt ex cap sc inf bf inv out sta fcn asg]; cbn in *.
+  destruct c as [kd ph fu stt ex cap sc inf bf inv out sta fcn asg ntf]; cbn in *.
   destruct (Hopen eq_refl) as [Hout [Hfu|[Hfu Hfc]]]; subst.
   - unfold finish_exc, fut_set, status_on_done; cbn.
     destruct kd; cbn; [constructor; cbn; cfield|constructor; cbn; cfield|].
@@ -230,30 +231,32 @@ Qed.
 Lemma rinv_finish_cancelled gc c : RInv c -> CInv (finish_cancelled gc c).
 Proof.
   unfold RInv. intros H. cinv_start H.
-  destruct c as [kd ph fu stt ex cap sc inf bf inv out sta fcn asg]; cbn in *.
+  destruct c as [kd ph fu stt ex cap sc inf bf inv out sta fcn asg ntf]; cbn in *.
+  assert (ntf = false) by (destruct ntf; [destruct (Hnotified eq_refl) as [_ ?]; discriminate|reflexivity]). subst ntf.
   destruct (Hopen eq_refl) as [Hout [Hfu|[Hfu Hfc]]]; subst.
   - (* pending: the scope cannot have been cancelled *)
     assert (sc = false) by (destruct sc; [destruct (Hscope eq_refl); discriminate|reflexivity]). subst sc.
-    unfold finish_cancelled, status_on_done; cbn.
+    unfold finish_cancelled, notify, status_on_done; cbn.
     destruct kd; cbn.
     + destruct cap; cbn; constructor; cbn; cfield.
     + destruct cap; cbn; constructor; cbn; cfield.
     + destruct stt; cbn; destruct cap; cbn; constructor; cbn; cfield.
-  - unfold finish_cancelled; cbn. destruct (sc && negb gc); cbn; constructor; cbn; cfield.
+  - unfold finish_cancelled, notify; cbn. destruct (sc && negb gc); cbn; constructor; cbn; cfield.
 Qed.
 
 Lemma rinv_finish_cancel_own c : RInv c -> CInv (finish_cancel_own c).
 Proof.
   unfold RInv. intros H. cinv_start H.
-  destruct c as [kd ph fu stt ex cap sc inf bf inv out sta fcn asg]; cbn in *.
+  destruct c as [kd ph fu stt ex cap sc inf bf inv out sta fcn asg ntf]; cbn in *.
+  assert (ntf = false) by (destruct ntf; [destruct (Hnotified eq_refl) as [_ ?]; discriminate|reflexivity]). subst ntf.
   destruct (Hopen eq_refl) as [Hout [Hfu|[Hfu Hfc]]]; subst.
   - assert (sc = false) by (destruct sc; [destruct (Hscope eq_refl); discriminate|reflexivity]). subst sc.
-    unfold finish_cancel_own, status_on_done; cbn.
+    unfold finish_cancel_own, notify, status_on_done; cbn.
     destruct kd; cbn.
     + constructor; cbn; cfield.
     + destruct cap; cbn; constructor; cbn; cfield.
     + destruct stt; cbn; destruct cap; cbn; constructor; cbn; cfield.
-  - unfold finish_cancel_own; cbn. constructor; cbn; cfield.
+  - unfold finish_cancel_own, notify; cbn. constructor; cbn; cfield.
 Qed.
 
 Lemma rinv_body_step gc c w sv f c' : RInv c -> body_step gc c w sv f = Some c' -> CInv c'.
@@ -274,7 +277,7 @@ Lemma cinv_entry c run : CInv c -> c_phase c = PLanded ->
         then with_scope_cancelled (with_entry c run) else with_entry c run).
 Proof.
   unfold RInv. intros H Hp. cinv_start H.
-  destruct c as [kd ph fu stt ex cap sc inf bf inv out sta fcn asg]; cbn in *. subst ph; cbn in *.
+  destruct c as [kd ph fu stt ex cap sc inf bf inv out sta fcn asg ntf]; cbn in *. subst ph; cbn in *.
   split.
   - constructor; cbn; cfield.
   - destruct fu; cbn; try (constructor; cbn; cfield).
@@ -301,18 +304,18 @@ Proof.
 Qed.
 
 Lemma cinv_land c : CInv c -> c_phase c = PIssued ->
-  CInv (with_phase c PLanded) /\ CInv (with_phase c PLandRefused).
+  CInv (with_phase c PLanded) /\ CInv (with_phase c PLandRefused) /\ CInv (with_phase c PLost).
 Proof.
   intros H Hp. cinv_start H.
-  destruct c as [kd ph fu stt ex cap sc inf bf inv out sta fcn asg]; cbn in *. subst ph; cbn in *.
+  destruct c as [kd ph fu stt ex cap sc inf bf inv out sta fcn asg ntf]; cbn in *. subst ph; cbn in *.
   destruct (Hearly eq_refl) as (-> & -> & -> & -> & -> & ->).
-  split; constructor; cbn; cfield.
+  refine (conj _ (conj _ _)); constructor; cbn; cfield.
 Qed.
 
 Lemma cinv_reap c : CInv c -> c_phase c = PFinished -> CInv (with_phase c PReaped).
 Proof.
   intros H Hp. cinv_start H.
-  destruct c as [kd ph fu stt ex cap sc inf bf inv out sta fcn asg]; cbn in *. subst ph; cbn in *.
+  destruct c as [kd ph fu stt ex cap sc inf bf inv out sta fcn asg ntf]; cbn in *. subst ph; cbn in *.
   constructor; cbn; cfield.
 Qed.
 
@@ -325,7 +328,7 @@ Proof. unfold handed_out. destruct (c_phase c); cbn; congruence. Qed.
 Lemma cinv_future_cancel c c' r : CInv c -> handed_out c = true -> future_cancel c = (c', r) -> CInv c'.
 Proof.
   intros H Hh. pose proof (handed_out_landed c Hh) as Hl. cinv_start H.
-  destruct c as [kd ph fu stt ex cap sc inf bf inv out sta fcn asg]; cbn in *.
+  destruct c as [kd ph fu stt ex cap sc inf bf inv out sta fcn asg ntf]; cbn in *.
   unfold future_cancel; cbn. destruct fu; cbn.
   - (* pending: not done yet *)
     assert (Hnd : donep ph = false).
@@ -347,10 +350,18 @@ Proof.
       eapply cell_ok_mono, Hok.
 Qed.
 
+Lemma future_cancel_done c c' r : CInv c -> future_cancel c = (c', r) -> donep (c_phase c) = true ->
+  c_fut c' = c_fut c /\ c_notified c' = c_notified c.
+Proof.
+  intros H E Hd. destruct (CI_closed _ H Hd) as (o & _ & Hok).
+  assert (Hnp : c_fut c <> CPending) by (destruct o; cbn in Hok; intuition congruence).
+  revert E. unfold future_cancel. destruct (c_fut c) eqn:Ef; try congruence; intros [= <- <-]; cbn; auto.
+Qed.
+
 Lemma cinv_cancel_land c : CInv c -> c_inflight c = true -> CInv (with_scope_cancelled (with_inflight c false)).
 Proof.
   intros H Hi. cinv_start H.
-  destruct c as [kd ph fu stt ex cap sc inf bf inv out sta fcn asg]; cbn in *. subst inf.
+  destruct c as [kd ph fu stt ex cap sc inf bf inv out sta fcn asg ntf]; cbn in *. subst inf.
   destruct (Hinfl eq_refl) as (-> & -> & ->).
   constructor; cbn; cfield.
 Qed.
@@ -364,10 +375,14 @@ Record Inv (s : st) : Prop := {
   I_wake : host s = HExitWaiting -> members s = [] -> woken s = true;
   I_stop : stop_event s = negb (running s);
   I_host : host s <> HBody -> running s = false;
-  I_cap : fc_fixed s = true -> forall k, enteredp (c_phase (calls s k)) = true -> c_captured (calls s k) = true
+  I_cap : fc_fixed s = true -> forall k, enteredp (c_phase (calls s k)) = true -> c_captured (calls s k) = true;
+  I_lost : forall k, c_phase (calls s k) = PLost -> In k (lost_calls s);
+  I_loop : loop_ended s = true -> host s = HLeft;
+  I_ntf : fn_fixed s = true -> forall k, donep (c_phase (calls s k)) = true -> c_fut (calls s k) = CCancelled ->
+          c_notified (calls s k) = true
 }.
 
-Lemma inv_init f4 fc : Inv (init f4 fc).
+Lemma inv_init f4 fc fn : Inv (init f4 fc fn).
 Proof.
   constructor; cbn.
   - intros k. apply (cinv_fresh KSync PNone); reflexivity.
@@ -378,14 +393,58 @@ Proof.
   - reflexivity.
   - congruence.
   - intros _ k. discriminate.
+  - intros k. discriminate.
+  - discriminate.
+  - intros _ k. discriminate.
+Qed.
+
+(* ---------- the `finally:` notification ---------- *)
+Lemma finalize_fields fx c :
+  c_kind (finalize fx c) = c_kind c /\ c_phase (finalize fx c) = c_phase c /\ c_fut (finalize fx c) = c_fut c /\
+  c_status (finalize fx c) = c_status c /\ c_execs (finalize fx c) = c_execs c /\
+  c_captured (finalize fx c) = c_captured c /\ c_scope_cancelled (finalize fx c) = c_scope_cancelled c /\
+  c_inflight (finalize fx c) = c_inflight c /\ c_base_fail (finalize fx c) = c_base_fail c /\
+  c_invalid (finalize fx c) = c_invalid c /\ c_outcome (finalize fx c) = c_outcome c /\
+  c_started (finalize fx c) = c_started c /\ c_fcancel (finalize fx c) = c_fcancel c /\
+  c_assigns (finalize fx c) = c_assigns c.
+Proof.
+  cbv zeta. unfold finalize. destruct c as [kd ph fu stt ex cap sc inf bf inv out sta fcn asg ntf]; cbn.
+  destruct ph; cbn; auto 20. destruct fx, fu, ntf; cbn; auto 20.
+Qed.
+
+Ltac fin_rw :=
+  match goal with
+  | |- context [finalize ?fx ?c] =>
+      let G1 := fresh "G" in let G2 := fresh "G" in let G3 := fresh "G" in let G4 := fresh "G" in
+      let G5 := fresh "G" in let G6 := fresh "G" in let G7 := fresh "G" in let G8 := fresh "G" in
+      let G9 := fresh "G" in let G10 := fresh "G" in let G11 := fresh "G" in let G12 := fresh "G" in
+      let G13 := fresh "G" in let G14 := fresh "G" in
+      destruct (finalize_fields fx c) as (G1 & G2 & G3 & G4 & G5 & G6 & G7 & G8 & G9 & G10 & G11 & G12 & G13 & G14);
+      rewrite ?G1, ?G2, ?G3, ?G4, ?G5, ?G6, ?G7, ?G8, ?G9, ?G10, ?G11, ?G12, ?G13, ?G14
+  end.
+
+Lemma cinv_finalize fx c : CInv c -> CInv (finalize fx c).
+Proof.
+  intros H. unfold finalize. destruct (c_phase c) eqn:Ep; try exact H.
+  destruct fx; cbn; [|exact H]. destruct (is_cancelled (c_fut c)) eqn:Ec; cbn; [|exact H].
+  destruct (c_notified c) eqn:En; cbn; [exact H|].
+  cinv_start H. destruct c as [kd ph fu stt ex cap sc inf bf inv out sta fcn asg ntf]; cbn in *. subst ph ntf.
+  destruct fu; try discriminate. constructor; cbn; cfield.
+Qed.
+
+Lemma finalize_notified c : c_phase c = PFinished -> c_fut c = CCancelled -> c_notified (finalize true c) = true.
+Proof.
+  intros Hp Hf. unfold finalize. rewrite Hp, Hf. cbn. destruct (c_notified c) eqn:E; cbn; [exact E|reflexivity].
 Qed.
 
 Lemma inv_set_call s k c' : Inv s -> CInv c' ->
   memberp (c_phase c') = memberp (c_phase (calls s k)) ->
   (fc_fixed s = true -> enteredp (c_phase c') = true -> c_captured c' = true) ->
+  c_phase c' <> PLost ->
+  (fn_fixed s = true -> donep (c_phase c') = true -> c_fut c' = CCancelled -> c_notified c' = true) ->
   Inv (set_call s k c').
 Proof.
-  intros I Hc Hm Hcap. constructor; cbn.
+  intros I Hc Hm Hcap Hnl Hntf. constructor; cbn.
   - intros j. unfold upd. destruct (Nat.eqb_spec j k); [exact Hc|apply (I_call s I)].
   - intros j. unfold upd. destruct (Nat.eqb_spec j k) as [->|Hne].
     + rewrite Hm. apply (I_mem s I).
@@ -396,6 +455,9 @@ Proof.
   - apply (I_stop s I).
   - apply (I_host s I).
   - intros Hf j. unfold upd. destruct (Nat.eqb_spec j k) as [->|Hne]; [apply Hcap, Hf|apply (I_cap s I Hf)].
+  - intros j. unfold upd. destruct (Nat.eqb_spec j k) as [->|Hne]; [intros E; contradiction|apply (I_lost s I)].
+  - apply (I_loop s I).
+  - intros Hf j. unfold upd. destruct (Nat.eqb_spec j k) as [->|Hne]; [apply Hntf, Hf|apply (I_ntf s I Hf)].
 Qed.
 
 Lemma in_remove_cid k x l : In x (remove_cid k l) <-> In x l /\ x <> k.
@@ -423,9 +485,10 @@ Lemma inv_set_host s h w : Inv s ->
   (f4_fixed s = true -> h = HLeft -> members s = []) ->
   (h = HExitWaiting -> members s = [] -> w = true) ->
   (h <> HBody -> running s = false) ->
-  Inv (mk (f4_fixed s) (fc_fixed s) (running s) (stop_event s) h w (members s) (group_cancelled s) (calls s)).
+  (loop_ended s = true -> h = HLeft) ->
+  Inv (mk (f4_fixed s) (fc_fixed s) (fn_fixed s) (loop_ended s) (lost_calls s) (lost_cancels s) (running s) (stop_event s) h w (members s) (group_cancelled s) (calls s)).
 Proof.
-  intros I H1 H2 H3. constructor; cbn.
+  intros I H1 H2 H3 H4. constructor; cbn.
   - apply (I_call s I).
   - apply (I_mem s I).
   - apply (I_nd s I).
@@ -434,23 +497,43 @@ Proof.
   - apply (I_stop s I).
   - exact H3.
   - apply (I_cap s I).
+  - apply (I_lost s I).
+  - exact H4.
+  - apply (I_ntf s I).
 Qed.
+
+Ltac inv_fields I := let J := fresh "J" in pose proof I as J; destruct J; constructor; cbn; auto.
 
 Lemma step_inv s o : Inv s -> Inv (fst (step s o)).
 Proof.
-  intros I. destruct o as [k kd|k|k w sv f|k|k|k|cr|exc|]; cbn [step].
+  intros I. destruct o as [k kd|k|k w sv f|k|k|k|cr|exc| |]; cbn [step].
   - (* ThreadIssue *)
     destruct (c_phase (calls s k)) eqn:Ep; try exact I.
     destruct (running s); cbn [fst]; apply inv_set_call; auto;
       try (apply cinv_fresh; reflexivity); try (rewrite Ep; reflexivity); cbn; discriminate.
   - (* ThreadLand *)
     destruct (c_phase (calls s k)) eqn:Ep; try exact I.
-    destruct (cinv_land (calls s k) (I_call s I k) Ep) as [HL HR].
-    destruct (is_left (host s)) eqn:El; cbn [fst].
-    + apply inv_set_call; auto; [rewrite Ep; reflexivity|cbn; discriminate].
+    destruct (cinv_land (calls s k) (I_call s I k) Ep) as (HL & HR & HX).
+    assert (Hnin : ~ In k (members s)).
+    { intros Hin. apply (I_mem s I) in Hin. rewrite Ep in Hin. discriminate. }
+    destruct (is_left (host s)) eqn:El; [destruct (loop_ended s) eqn:Ee|]; cbn [fst].
+    + (* lost *)
+      constructor; cbn.
+      * intros j. unfold upd. destruct (Nat.eqb_spec j k); [exact HX|apply (I_call s I)].
+      * intros j. unfold upd. destruct (Nat.eqb_spec j k) as [->|Hne]; cbn; [|apply (I_mem s I)].
+        split; [intros H; contradiction|discriminate].
+      * apply (I_nd s I).
+      * apply (I_left s I).
+      * apply (I_wake s I).
+      * apply (I_stop s I).
+      * apply (I_host s I).
+      * intros Hf j. unfold upd. destruct (Nat.eqb_spec j k) as [->|Hne]; [cbn; discriminate|apply (I_cap s I Hf)].
+      * intros j. unfold upd. rewrite in_app_iff. destruct (Nat.eqb_spec j k) as [->|Hne]; cbn; [auto|].
+        intros E. left. apply (I_lost s I), E.
+      * intros _. apply (I_loop s I Ee).
+      * intros Hf j. unfold upd. destruct (Nat.eqb_spec j k) as [->|Hne]; [cbn; discriminate|apply (I_ntf s I Hf)].
+    + apply inv_set_call; auto; [rewrite Ep; reflexivity|cbn; discriminate|cbn; discriminate|cbn; discriminate].
     + assert (Hnl : host s <> HLeft) by (intros E; apply is_left_true in E; congruence).
-      assert (Hnin : ~ In k (members s)).
-      { intros Hin. apply (I_mem s I) in Hin. rewrite Ep in Hin. discriminate. }
       constructor; cbn.
       * intros j. unfold upd. destruct (Nat.eqb_spec j k); [exact HL|apply (I_call s I)].
       * intros j. unfold upd. rewrite in_app_iff. destruct (Nat.eqb_spec j k) as [->|Hne]; cbn.
@@ -462,22 +545,35 @@ Proof.
       * apply (I_stop s I).
       * apply (I_host s I).
       * intros Hf j. unfold upd. destruct (Nat.eqb_spec j k) as [->|Hne]; [cbn; discriminate|apply (I_cap s I Hf)].
+      * intros j. unfold upd. destruct (Nat.eqb_spec j k) as [->|Hne]; [cbn; discriminate|apply (I_lost s I)].
+      * apply (I_loop s I).
+      * intros Hf j. unfold upd. destruct (Nat.eqb_spec j k) as [->|Hne]; [cbn; discriminate|apply (I_ntf s I Hf)].
   - (* TaskStep *)
     destruct (c_phase (calls s k)) eqn:Ep; try exact I.
     + destruct w; [|exact I].
       destruct (first_step _ _ _ _ _) as [c'|] eqn:E; [|exact I]. cbn [fst].
       pose proof (cinv_first_step _ _ _ _ _ _ (I_call s I k) Ep E) as Hc.
       apply first_step_frame in E. destruct E as (_ & Hph & _ & Hcap).
+      destruct (finalize_fields (fn_fixed s) c') as (_ & F2 & F3 & _ & _ & F6 & _).
       apply inv_set_call; auto.
-      * rewrite Ep. destruct Hph as [-> | ->]; reflexivity.
-      * intros Hf _. rewrite Hcap, Hf. reflexivity.
+      * apply cinv_finalize, Hc.
+      * rewrite F2, Ep. destruct Hph as [-> | ->]; reflexivity.
+      * intros Hf _. rewrite F6, Hcap, Hf. reflexivity.
+      * rewrite F2. destruct Hph as [-> | ->]; discriminate.
+      * intros Hf Hd Hcn. rewrite Hf. rewrite F2 in Hd. rewrite F3 in Hcn. rewrite Hf in F3.
+        apply finalize_notified; [|exact Hcn]. destruct Hph as [E|E]; [rewrite E in Hd; discriminate|exact E].
     + destruct (match w with WNormal => true | WInterrupt => _ end); [|exact I].
       destruct (body_step _ _ _ _ _) as [c'|] eqn:E; [|exact I]. cbn [fst].
       pose proof (cinv_running_step _ _ _ _ _ _ (I_call s I k) Ep E) as Hc.
       apply body_step_frame in E. destruct E as (_ & Hph & _ & Hcap).
+      destruct (finalize_fields (fn_fixed s) c') as (_ & F2 & F3 & _ & _ & F6 & _).
       apply inv_set_call; auto.
-      * rewrite Ep. destruct Hph as [-> | ->]; reflexivity.
-      * intros Hf _. rewrite Hcap. apply (I_cap s I Hf). rewrite Ep. reflexivity.
+      * apply cinv_finalize, Hc.
+      * rewrite F2, Ep. destruct Hph as [-> | ->]; reflexivity.
+      * intros Hf _. rewrite F6, Hcap. apply (I_cap s I Hf). rewrite Ep. reflexivity.
+      * rewrite F2. destruct Hph as [-> | ->]; discriminate.
+      * intros Hf Hd Hcn. rewrite Hf. rewrite F2 in Hd. rewrite F3 in Hcn.
+        apply finalize_notified; [|exact Hcn]. destruct Hph as [E|E]; [rewrite E in Hd; discriminate|exact E].
   - (* TaskReap *)
     destruct (c_phase (calls s k)) eqn:Ep; try exact I. cbn [fst].
     pose proof (cinv_reap _ (I_call s I k) Ep) as Hc.
@@ -493,77 +589,86 @@ Proof.
     + apply (I_host s I).
     + intros Hf j. unfold upd. destruct (Nat.eqb_spec j k) as [->|Hne]; [|apply (I_cap s I Hf)].
       cbn. intros _. apply (I_cap s I Hf). rewrite Ep. reflexivity.
+    + intros j. unfold upd. destruct (Nat.eqb_spec j k) as [->|Hne]; [cbn; discriminate|apply (I_lost s I)].
+    + apply (I_loop s I).
+    + intros Hf j. unfold upd. destruct (Nat.eqb_spec j k) as [->|Hne]; [|apply (I_ntf s I Hf)].
+      cbn. intros _ Hcn. apply (I_ntf s I Hf); [rewrite Ep; reflexivity|exact Hcn].
   - (* FutureCancel *)
     destruct (handed_out (calls s k)) eqn:Eh; [|exact I].
     destruct (future_cancel (calls s k)) as [c' r] eqn:E. cbn [fst].
     pose proof (cinv_future_cancel _ _ _ (I_call s I k) Eh E) as Hc.
+    pose proof (future_cancel_done _ _ _ (I_call s I k) E) as Hdn.
     apply future_cancel_frame in E. destruct E as (_ & Hph & _ & Hcap & _).
     apply inv_set_call; auto.
     + rewrite Hph. reflexivity.
     + intros Hf He. rewrite Hcap. apply (I_cap s I Hf). rewrite <- Hph. exact He.
+    + rewrite Hph. intros E. apply handed_out_landed in Eh. rewrite E in Eh. discriminate.
+    + intros Hf Hd Hcn. rewrite Hph in Hd. destruct (Hdn Hd) as [E1 E2]. rewrite E2.
+      apply (I_ntf s I Hf); [exact Hd|congruence].
   - (* CancelLand *)
-    destruct (c_inflight (calls s k)) eqn:Ei; [|exact I]. cbn [fst].
-    apply inv_set_call; auto.
-    + apply cinv_cancel_land; [apply (I_call s I)|exact Ei].
-    + intros Hf He. cbn in *. apply (I_cap s I Hf), He.
+    destruct (c_inflight (calls s k)) eqn:Ei; [|exact I].
+    destruct (loop_ended s) eqn:Ee; cbn [fst].
+    + inv_fields I.
+    + apply inv_set_call; auto.
+      * apply cinv_cancel_land; [apply (I_call s I)|exact Ei].
+      * intros Hf He. cbn in *. apply (I_cap s I Hf), He.
+      * cbn. intros E. destruct (CI_early _ (I_call s I k)) as (_ & _ & _ & X & _); [rewrite E; reflexivity|congruence].
+      * cbn. intros Hf. apply (I_ntf s I Hf).
   - (* Stop *)
-    cbn [fst]. constructor; cbn.
-    + apply (I_call s I).
-    + apply (I_mem s I).
-    + apply (I_nd s I).
-    + apply (I_left s I).
-    + apply (I_wake s I).
-    + reflexivity.
-    + reflexivity.
-    + apply (I_cap s I).
+    cbn [fst]. inv_fields I.
   - (* HostExit *)
-    destruct (host s) eqn:Eh; try exact I. cbn [fst]. constructor; cbn.
-    + apply (I_call s I).
-    + apply (I_mem s I).
-    + apply (I_nd s I).
+    destruct (host s) eqn:Eh; try exact I. cbn [fst]. inv_fields I.
     + destruct (is_nil (members s)); discriminate.
     + destruct (is_nil (members s)) eqn:En; [discriminate|]. intros _ Hm. apply is_nil_true in Hm. congruence.
-    + reflexivity.
-    + reflexivity.
-    + apply (I_cap s I).
+    + intros Hl. apply (I_loop s I) in Hl. congruence.
   - (* ResumeHost *)
     assert (Hrun : host s <> HBody -> running s = false) by apply (I_host s I).
+    assert (Hloop : host s <> HLeft -> loop_ended s = true -> False).
+    { intros Hn Hl. apply Hn, (I_loop s I Hl). }
     destruct (host s) eqn:Eh; try exact I.
     + destruct (woken s) eqn:Ew; [|exact I].
-      destruct (is_nil (members s)) eqn:En; cbn [fst]; (apply inv_set_host; [exact I| | |]).
+      destruct (is_nil (members s)) eqn:En; cbn [fst]; (apply inv_set_host; [exact I| | | |]).
       * intros _ _. apply is_nil_true, En.
       * discriminate.
       * intros _. apply Hrun. discriminate.
+      * reflexivity.
       * discriminate.
       * intros _ Hm. apply is_nil_true in Hm. congruence.
       * intros _. apply Hrun. discriminate.
-    + destruct (f4_fixed s && negb (is_nil (members s))) eqn:Ef; cbn [fst]; (apply inv_set_host; [exact I| | |]).
+      * intros Hl. exfalso. apply Hloop; [discriminate|exact Hl].
+    + destruct (f4_fixed s && negb (is_nil (members s))) eqn:Ef; cbn [fst]; (apply inv_set_host; [exact I| | | |]).
       * discriminate.
       * intros _ Hm. apply andb_prop in Ef. destruct Ef as [_ Ef]. apply is_nil_true in Hm. rewrite Hm in Ef.
         discriminate.
       * intros _. apply Hrun. discriminate.
+      * intros Hl. exfalso. apply Hloop; [discriminate|exact Hl].
       * intros Hf _. rewrite Hf in Ef. cbn in Ef. apply is_nil_true.
         destruct (is_nil (members s)); [reflexivity|discriminate].
       * discriminate.
       * intros _. apply Hrun. discriminate.
+      * reflexivity.
+  - (* LoopEnd *)
+    destruct (is_left (host s)) eqn:El; cbn; [|exact I]. destruct (loop_ended s) eqn:Ee; cbn; [exact I|].
+    apply is_left_true in El. inv_fields I.
 Qed.
 
-Theorem reachable_inv f4 fc ops : Inv (final step (init f4 fc) ops).
+Theorem reachable_inv f4 fc fn ops : Inv (final step (init f4 fc fn) ops).
 Proof. apply final_inv; [apply step_inv|apply inv_init]. Qed.
 
 Lemma reach_inv f4 fc s : reach f4 fc s -> Inv s.
-Proof. intros [ops ->]. apply reachable_inv. Qed.
+Proof. intros (fn & ops & ->). apply reachable_inv. Qed.
+
+Lemma final_flags ops : forall s0,
+  f4_fixed (final step s0 ops) = f4_fixed s0 /\ fc_fixed (final step s0 ops) = fc_fixed s0 /\
+  fn_fixed (final step s0 ops) = fn_fixed s0.
+Proof.
+  unfold final. induction ops as [|o r IH]; intros s0; cbn; [auto|].
+  destruct (IH (fst (step s0 o))) as (-> & -> & ->).
+  destruct o; cbn [step]; repeat match goal with |- context [match ?x with _ => _ end] => destruct x end; cbn; auto.
+Qed.
 
 Lemma reach_flags f4 fc s : reach f4 fc s -> f4_fixed s = f4 /\ fc_fixed s = fc.
-Proof.
-  intros [ops ->]. unfold final.
-  assert (G : forall s0, f4_fixed (fold_left (fun s o => fst (step s o)) ops s0) = f4_fixed s0 /\
-                         fc_fixed (fold_left (fun s o => fst (step s o)) ops s0) = fc_fixed s0).
-  { induction ops as [|o r IH]; intros s0; cbn; [auto|].
-    destruct (IH (fst (step s0 o))) as [-> ->].
-    destruct o; cbn [step]; repeat match goal with |- context [match ?x with _ => _ end] => destruct x end; cbn; auto. }
-  apply (G (init f4 fc)).
-Qed.
+Proof. intros (fn & ops & ->). destruct (final_flags ops (init f4 fc fn)) as (H1 & H2 & _). auto. Qed.
 
 (* ====================================================================================================
    The C15 clauses
@@ -573,28 +678,30 @@ Qed.
 Definition op_target (o : op) : option cid :=
   match o with
   | ThreadIssue k _ | ThreadLand k | TaskStep k _ _ _ | TaskReap k | FutureCancel k | CancelLand k => Some k
-  | Stop _ | HostExit _ | ResumeHost => None
+  | Stop _ | HostExit _ | ResumeHost | LoopEnd => None
   end.
 
 (* an op about call k (or about the host) never touches the record of another call j *)
 Lemma step_other s o j : op_target o <> Some j -> calls (fst (step s o)) j = calls s j.
 Proof.
-  destruct o as [k kd|k|k w sv f|k|k|k|cr|exc|]; cbn [op_target step]; intros Hne;
+  destruct o as [k kd|k|k w sv f|k|k|k|cr|exc| |]; cbn [op_target step]; intros Hne;
     try (assert (Hjk : j <> k) by congruence).
   - destruct (c_phase (calls s k)); try reflexivity. destruct (running s); cbn; now rewrite upd_other.
-  - destruct (c_phase (calls s k)); try reflexivity. destruct (is_left (host s)); cbn; now rewrite upd_other.
+  - destruct (c_phase (calls s k)); try reflexivity.
+    destruct (is_left (host s)); [destruct (loop_ended s)|]; cbn; now rewrite upd_other.
   - destruct (c_phase (calls s k)); try reflexivity.
     + destruct w; [|reflexivity]. destruct (first_step _ _ _ _ _); cbn; [now rewrite upd_other|reflexivity].
     + destruct (match w with WNormal => true | WInterrupt => _ end); [|reflexivity].
       destruct (body_step _ _ _ _ _); cbn; [now rewrite upd_other|reflexivity].
   - destruct (c_phase (calls s k)); try reflexivity. cbn. now rewrite upd_other.
   - destruct (handed_out (calls s k)); [|reflexivity]. destruct (future_cancel (calls s k)). cbn. now rewrite upd_other.
-  - destruct (c_inflight (calls s k)); [|reflexivity]. cbn. now rewrite upd_other.
+  - destruct (c_inflight (calls s k)); [|reflexivity]. destruct (loop_ended s); cbn; [reflexivity|now rewrite upd_other].
   - reflexivity.
   - destruct (host s); reflexivity.
   - destruct (host s); try reflexivity.
     + destruct (woken s); [|reflexivity]. destruct (is_nil (members s)); reflexivity.
     + destruct (f4_fixed s && negb (is_nil (members s))); reflexivity.
+  - destruct (is_left (host s) && negb (loop_ended s)); reflexivity.
 Qed.
 
 Lemma option_eq_dec_target o k : {op_target o = Some k} + {op_target o <> Some k}.
@@ -632,24 +739,25 @@ Proof.
   intros R Hne. pose proof (reach_inv _ _ _ R) as I.
   destruct (option_eq_dec_target o k) as [Ht|Ht].
   2:{ exfalso. apply Hne. now rewrite step_other. }
-  revert Hne. destruct o as [k' kd|k'|k' w sv f|k'|k'|k'|cr|exc|]; cbn [op_target] in Ht; try discriminate;
+  revert Hne. destruct o as [k' kd|k'|k' w sv f|k'|k'|k'|cr|exc| |]; cbn [op_target] in Ht; try discriminate;
     injection Ht as ->; cbn [step].
   - destruct (c_phase (calls s k)) eqn:Ep; cbn [fst]; try congruence.
     pose proof (CI_execs _ (I_call s I k)) as He. rewrite Ep in He. cbn in He.
     destruct (running s); cbn; rewrite upd_same; cbn; congruence.
   - destruct (c_phase (calls s k)) eqn:Ep; cbn [fst]; try congruence.
-    destruct (is_left (host s)); cbn; rewrite upd_same; cbn; congruence.
+    destruct (is_left (host s)); [destruct (loop_ended s)|]; cbn; rewrite upd_same; cbn; congruence.
   - destruct (c_phase (calls s k)) eqn:Ep; cbn [fst]; try congruence.
     + destruct w; cbn [fst]; [|congruence]. destruct (first_step _ _ _ _ _) as [c'|] eqn:E; cbn [fst]; [|congruence].
-      cbn. rewrite upd_same. apply first_step_frame in E. destruct E as (_ & _ & He & _).
+      cbn. rewrite upd_same. fin_rw. apply first_step_frame in E. destruct E as (_ & _ & He & _).
       intros _. split; [reflexivity|]. split; [eauto|exact He].
     + destruct (match w with WNormal => true | WInterrupt => _ end); cbn [fst]; [|congruence].
       destruct (body_step _ _ _ _ _) as [c'|] eqn:E; cbn [fst]; [|congruence].
-      cbn. rewrite upd_same. apply body_step_frame in E. destruct E as (_ & _ & He & _). congruence.
+      cbn. rewrite upd_same. fin_rw. apply body_step_frame in E. destruct E as (_ & _ & He & _). congruence.
   - destruct (c_phase (calls s k)) eqn:Ep; cbn [fst]; try congruence. cbn. rewrite upd_same. cbn. congruence.
   - destruct (handed_out (calls s k)); cbn [fst]; [|congruence]. destruct (future_cancel (calls s k)) as [c' r] eqn:E.
     cbn. rewrite upd_same. apply future_cancel_frame in E. destruct E as (_ & _ & He & _). congruence.
-  - destruct (c_inflight (calls s k)); cbn [fst]; [|congruence]. cbn. rewrite upd_same. cbn. congruence.
+  - destruct (c_inflight (calls s k)); cbn [fst]; [|congruence].
+    destruct (loop_ended s); cbn; [congruence|]. rewrite upd_same. cbn. congruence.
 Qed.
 
 (* ---------- 2. portal_future_single_assignment ---------- *)
@@ -711,14 +819,14 @@ Proof.
      | FCancelOwn => c_phase c' = PFinished /\ c_outcome c' = Some OCancelledOut
      end /\
      (forall v, sv = Some v -> c_started c' = Some v /\ c_status c' = CResult v /\ c_kind c' = KStart)).
-  { intros gc c c'. destruct c as [kd ph fu stt ex cap sc inf bf inv out sta fcn asg].
-    unfold body_step, apply_started, finish_ret, finish_exc, finish_cancelled, finish_cancel_own, fut_set, status_on_done,
+  { intros gc c c'. destruct c as [kd ph fu stt ex cap sc inf bf inv out sta fcn asg ntf].
+    unfold body_step, apply_started, finish_ret, finish_exc, finish_cancelled, finish_cancel_own, notify, fut_set, status_on_done,
       is_pending, is_cancelled; cbn.
     destruct f, w, sv; cbn; repeat (progress dmatch; cbn); try discriminate; intros [= <-]; cbn;
       (split; [auto|intros ? E; try discriminate E; injection E as <-; auto]). }
   destruct (c_phase (calls s k)) eqn:Ep; try discriminate.
   - destruct w; [|discriminate]. destruct (first_step _ _ _ _ _) as [c1|] eqn:E; [|discriminate].
-    intros [= <-]. cbn. rewrite upd_same.
+    intros [= <-]. cbn. rewrite upd_same. fin_rw.
     unfold first_step in E. destruct (c_kind (calls s k)) eqn:Ek.
     + destruct sv; [discriminate|]. destruct f as [|v|e| |]; try discriminate; injection E as <-;
         (split; [cbn; auto|intros v1; discriminate]).
@@ -726,18 +834,18 @@ Proof.
     + eapply B, E.
   - destruct (match w with WNormal => true | WInterrupt => _ end); [|discriminate].
     destruct (body_step _ _ _ _ _) as [c1|] eqn:E; [|discriminate].
-    intros [= <-]. cbn. rewrite upd_same. eapply B, E.
+    intros [= <-]. cbn. rewrite upd_same. fin_rw. eapply B, E.
 Qed.
 
 (* once a cell holds a value it never changes again (single assignment, as a statement about steps) *)
 Ltac unfold_all :=
-  unfold first_step, body_step, apply_started, finish_ret, finish_exc, finish_cancelled, finish_cancel_own, fut_set, status_on_done,
+  unfold first_step, body_step, apply_started, finish_ret, finish_exc, finish_cancelled, finish_cancel_own, notify, fut_set, status_on_done,
     future_cancel, callback_registered, is_pending, is_cancelled; cbn.
 
 Lemma body_step_cells gc c w sv f c' : body_step gc c w sv f = Some c' ->
   (c_fut c <> CPending -> c_fut c' = c_fut c) /\ (c_status c <> CPending -> c_status c' = c_status c).
 Proof.
-  destruct c as [kd ph fu stt ex cap sc inf bf inv out sta fcn asg]. unfold_all.
+  destruct c as [kd ph fu stt ex cap sc inf bf inv out sta fcn asg ntf]. unfold_all.
   destruct f, w, sv; cbn; repeat (progress dmatch; cbn); try discriminate; intros [= <-]; cbn;
     (split; [intros; congruence|intros; congruence]).
 Qed.
@@ -745,7 +853,7 @@ Qed.
 Lemma first_step_cells run gc c sv f c' : first_step run gc c sv f = Some c' ->
   (c_fut c <> CPending -> c_fut c' = c_fut c) /\ (c_status c <> CPending -> c_status c' = c_status c).
 Proof.
-  destruct c as [kd ph fu stt ex cap sc inf bf inv out sta fcn asg]. unfold_all.
+  destruct c as [kd ph fu stt ex cap sc inf bf inv out sta fcn asg ntf]. unfold_all.
   destruct kd, f, sv; cbn; repeat (progress dmatch; cbn); try discriminate; intros [= <-]; cbn;
     (split; [intros; congruence|intros; congruence]).
 Qed.
@@ -753,7 +861,7 @@ Qed.
 Lemma future_cancel_cells c c' r : future_cancel c = (c', r) ->
   (c_fut c <> CPending -> c_fut c' = c_fut c) /\ (c_status c <> CPending -> c_status c' = c_status c).
 Proof.
-  destruct c as [kd ph fu stt ex cap sc inf bf inv out sta fcn asg]. unfold_all.
+  destruct c as [kd ph fu stt ex cap sc inf bf inv out sta fcn asg ntf]. unfold_all.
   destruct fu; cbn; try solve [intros [= <- <-]; cbn; split; intros; congruence].
   destruct kd; [|destruct ph|destruct stt, ph]; destruct cap; cbn; intros [= <- <-]; cbn; split; intros; congruence.
 Qed.
@@ -765,42 +873,42 @@ Proof.
   intros R. pose proof (reach_inv _ _ _ R) as I.
   destruct (option_eq_dec_target o k) as [Ht|Ht].
   2:{ rewrite step_other by exact Ht. auto. }
-  destruct o as [k' kd|k'|k' w sv f|k'|k'|k'|cr|exc|]; cbn [op_target] in Ht; try discriminate;
+  destruct o as [k' kd|k'|k' w sv f|k'|k'|k'|cr|exc| |]; cbn [op_target] in Ht; try discriminate;
     injection Ht as ->; cbn [step].
   - destruct (c_phase (calls s k)) eqn:Ep; cbn [fst]; auto.
     destruct (CI_early _ (I_call s I k)) as (E1 & E2 & _); [rewrite Ep; reflexivity|].
     split; intros H; congruence.
   - destruct (c_phase (calls s k)) eqn:Ep; cbn [fst]; auto.
-    destruct (is_left (host s)); cbn; rewrite upd_same; cbn; auto.
+    destruct (is_left (host s)); [destruct (loop_ended s)|]; cbn; rewrite upd_same; cbn; auto.
   - destruct (c_phase (calls s k)) eqn:Ep; cbn [fst]; auto.
     + destruct w; cbn [fst]; auto. destruct (first_step _ _ _ _ _) as [c'|] eqn:E; cbn [fst]; auto.
-      cbn. rewrite upd_same. eapply first_step_cells, E.
+      cbn. rewrite upd_same. fin_rw. eapply first_step_cells, E.
     + destruct (match w with WNormal => true | WInterrupt => _ end); cbn [fst]; auto.
       destruct (body_step _ _ _ _ _) as [c'|] eqn:E; cbn [fst]; auto.
-      cbn. rewrite upd_same. eapply body_step_cells, E.
+      cbn. rewrite upd_same. fin_rw. eapply body_step_cells, E.
   - destruct (c_phase (calls s k)) eqn:Ep; cbn [fst]; auto. cbn. rewrite upd_same. cbn. auto.
   - destruct (handed_out (calls s k)); cbn [fst]; auto. destruct (future_cancel (calls s k)) as [c' r] eqn:E.
     cbn. rewrite upd_same. eapply future_cancel_cells, E.
-  - destruct (c_inflight (calls s k)); cbn [fst]; auto. cbn. rewrite upd_same. cbn. auto.
+  - destruct (c_inflight (calls s k)); cbn [fst]; auto. destruct (loop_ended s); cbn; auto. rewrite upd_same. cbn. auto.
 Qed.
 
 (* ---------- 3. portal_future_cancel_cancels_that_task_only ---------- *)
 Lemma body_step_flags gc c w sv f c' : body_step gc c w sv f = Some c' ->
   c_inflight c' = c_inflight c /\ (c_scope_cancelled c = true -> c_scope_cancelled c' = true).
 Proof.
-  destruct c as [kd ph fu stt ex cap sc inf bf inv out sta fcn asg]. unfold_all.
+  destruct c as [kd ph fu stt ex cap sc inf bf inv out sta fcn asg ntf]. unfold_all.
   destruct f, w, sv; cbn; repeat (progress dmatch; cbn); try discriminate; intros [= <-]; cbn; auto.
 Qed.
 
 Lemma first_step_flags run gc c sv f c' : first_step run gc c sv f = Some c' -> c_inflight c' = c_inflight c.
 Proof.
-  destruct c as [kd ph fu stt ex cap sc inf bf inv out sta fcn asg]. unfold_all.
+  destruct c as [kd ph fu stt ex cap sc inf bf inv out sta fcn asg ntf]. unfold_all.
   destruct kd, f, sv; cbn; repeat (progress dmatch; cbn); try discriminate; intros [= <-]; cbn; auto.
 Qed.
 
 Lemma future_cancel_flags c c' r : future_cancel c = (c', r) -> c_inflight c = true -> c_inflight c' = true.
 Proof.
-  destruct c as [kd ph fu stt ex cap sc inf bf inv out sta fcn asg]. unfold_all.
+  destruct c as [kd ph fu stt ex cap sc inf bf inv out sta fcn asg ntf]. unfold_all.
   destruct fu; cbn; try solve [intros [= <- <-]; cbn; auto].
   destruct kd; [|destruct ph|destruct stt, ph]; destruct cap; cbn; intros [= <- <-]; cbn; auto.
 Qed.
@@ -816,7 +924,7 @@ Proof.
   - destruct (handed_out (calls s k)); cbn; [|auto 10]. destruct (future_cancel (calls s k)) as [c' r]. cbn.
     refine (conj _ (conj eq_refl (conj eq_refl (conj eq_refl (conj eq_refl eq_refl))))).
     intros j Hj. now rewrite upd_other.
-  - destruct (c_inflight (calls s k)); cbn; [|auto 10].
+  - destruct (c_inflight (calls s k)); cbn; [|auto 10]. destruct (loop_ended s); cbn; [auto 10|].
     refine (conj _ (conj eq_refl (conj eq_refl (conj eq_refl (conj eq_refl eq_refl))))).
     intros j Hj. now rewrite upd_other.
 Qed.
@@ -851,7 +959,7 @@ Proof.
   intros R Hp Hk Hf Hh. pose proof (reach_inv _ _ _ R) as I. destruct (reach_flags _ _ _ R) as [_ Hfc].
   assert (Hcap : c_captured (calls s k) = true) by (apply (I_cap s I Hfc); rewrite Hp; reflexivity).
   cbn [step]. rewrite Hh.
-  destruct (calls s k) as [kd ph fu stt ex cap sc inf bf inv out sta fcn asg] eqn:Ec; cbn in *. subst ph fu cap.
+  destruct (calls s k) as [kd ph fu stt ex cap sc inf bf inv out sta fcn asg ntf] eqn:Ec; cbn in *. subst ph fu cap.
   unfold future_cancel, status_on_done, callback_registered, is_pending; cbn.
   destruct kd; [congruence| |]; cbn.
   - rewrite upd_same. cbn. auto.
@@ -862,32 +970,35 @@ Qed.
    so that the interruption of exactly this call becomes deliverable *)
 Theorem portal_cancel_inflight_lands f4 fc s k : reach f4 fc s -> c_inflight (calls s k) = true ->
   (forall o, o <> CancelLand k -> c_inflight (calls (fst (step s o)) k) = true) /\
-  (let s2 := fst (step s (CancelLand k)) in
+  (loop_ended s = false ->
+   let s2 := fst (step s (CancelLand k)) in
    c_scope_cancelled (calls s2 k) = true /\ c_inflight (calls s2 k) = false /\ c_phase (calls s2 k) = c_phase (calls s k) /\
-   (c_phase (calls s2 k) = PRunning -> snd (step s2 (TaskStep k WInterrupt None FReraise)) = RStepped)).
+   (c_phase (calls s2 k) = PRunning -> snd (step s2 (TaskStep k WInterrupt None FReraise)) = RStepped)) /\
+  (loop_ended s = true -> snd (step s (CancelLand k)) = RLost /\ In k (lost_cancels (fst (step s (CancelLand k))))).
 Proof.
-  intros R Hi. pose proof (reach_inv _ _ _ R) as I. split.
+  intros R Hi. pose proof (reach_inv _ _ _ R) as I. refine (conj _ (conj _ _)).
   - intros o Ho. destruct (option_eq_dec_target o k) as [Ht|Ht].
     2:{ now rewrite step_other. }
-    destruct o as [k' kd|k'|k' w sv f|k'|k'|k'|cr|exc|]; cbn [op_target] in Ht; try discriminate;
+    destruct o as [k' kd|k'|k' w sv f|k'|k'|k'|cr|exc| |]; cbn [op_target] in Ht; try discriminate;
       injection Ht as ->; cbn [step].
     + destruct (c_phase (calls s k)) eqn:Ep; cbn [fst]; auto.
       destruct (CI_early _ (I_call s I k)) as (_ & _ & _ & E & _); [rewrite Ep; reflexivity|congruence].
     + destruct (c_phase (calls s k)) eqn:Ep; cbn [fst]; auto.
-      destruct (is_left (host s)); cbn; rewrite upd_same; cbn; auto.
+      destruct (is_left (host s)); [destruct (loop_ended s)|]; cbn; rewrite upd_same; cbn; auto.
     + destruct (c_phase (calls s k)) eqn:Ep; cbn [fst]; auto.
       * destruct w; cbn [fst]; auto. destruct (first_step _ _ _ _ _) as [c'|] eqn:E; cbn [fst]; auto.
-        cbn. rewrite upd_same. apply first_step_flags in E. congruence.
+        cbn. rewrite upd_same. fin_rw. apply first_step_flags in E. congruence.
       * destruct (match w with WNormal => true | WInterrupt => _ end); cbn [fst]; auto.
         destruct (body_step _ _ _ _ _) as [c'|] eqn:E; cbn [fst]; auto.
-        cbn. rewrite upd_same. apply body_step_flags in E. destruct E as [E _]. congruence.
+        cbn. rewrite upd_same. fin_rw. apply body_step_flags in E. destruct E as [E _]. congruence.
     + destruct (c_phase (calls s k)) eqn:Ep; cbn [fst]; auto. cbn. rewrite upd_same. cbn. auto.
     + destruct (handed_out (calls s k)); cbn [fst]; auto. destruct (future_cancel (calls s k)) as [c' r] eqn:E.
       cbn. rewrite upd_same. eapply future_cancel_flags; eauto.
     + congruence.
-  - cbn [step]. rewrite Hi. cbn. rewrite !upd_same. cbn. refine (conj eq_refl (conj eq_refl (conj eq_refl _))).
+  - intros He. cbn [step]. rewrite Hi, He. cbn. rewrite !upd_same. cbn. refine (conj eq_refl (conj eq_refl (conj eq_refl _))).
     intros Hp. rewrite Hp. cbn.
     unfold body_step, apply_started, finish_cancelled. cbn. reflexivity.
+  - intros He. cbn [step]. rewrite Hi, He. cbn. split; [reflexivity|]. apply in_or_app. right. now left.
 Qed.
 
 (* pinned variant (tree before 2158065): a call whose wrapper started after stop() ignores the cancellation of its
@@ -896,7 +1007,7 @@ Definition fc_pinned_witness : list op :=
   [ThreadIssue 0 KCoro; ThreadLand 0; Stop false; TaskStep 0 WNormal None FBlock; FutureCancel 0].
 
 Theorem portal_future_cancel_after_stop_ignored_pinned :
-  let s := final step (init true false) fc_pinned_witness in
+  let s := final step (init true false true) fc_pinned_witness in
   c_phase (calls s 0) = PRunning /\ c_fut (calls s 0) = CCancelled /\ c_fcancel (calls s 0) = true /\
   c_inflight (calls s 0) = false /\ c_scope_cancelled (calls s 0) = false /\
   snd (step s (TaskStep 0 WInterrupt None FReraise)) = RRejected /\ snd (step s (CancelLand 0)) = RRejected.
@@ -904,7 +1015,7 @@ Proof. vm_compute. repeat split. Qed.
 
 (* the same history on the repaired tree marshals the cancel *)
 Example ex_fc_history_fixed :
-  let s := final step (init true true) fc_pinned_witness in
+  let s := final step (init true true true) fc_pinned_witness in
   c_inflight (calls s 0) = true /\
   snd (step (fst (step s (CancelLand 0))) (TaskStep 0 WInterrupt None FReraise)) = RStepped.
 Proof. vm_compute. repeat split. Qed.
@@ -926,13 +1037,13 @@ Qed.
 
 Lemma body_step_own_basefail gc c w sv c' : body_step gc c w sv FCancelOwn = Some c' -> c_base_fail c' = c_base_fail c.
 Proof.
-  destruct c as [kd ph fu stt ex cap sc inf bf inv out sta fcn asg]. unfold_all.
+  destruct c as [kd ph fu stt ex cap sc inf bf inv out sta fcn asg ntf]. unfold_all.
   destruct w, sv; cbn; repeat (progress dmatch; cbn); try discriminate; intros [= <-]; cbn; auto.
 Qed.
 
 Lemma first_step_own_basefail run gc c sv c' : first_step run gc c sv FCancelOwn = Some c' -> c_base_fail c' = c_base_fail c.
 Proof.
-  destruct c as [kd ph fu stt ex cap sc inf bf inv out sta fcn asg]. unfold_all.
+  destruct c as [kd ph fu stt ex cap sc inf bf inv out sta fcn asg ntf]. unfold_all.
   destruct kd, sv; cbn; repeat (progress dmatch; cbn); try discriminate; intros [= <-]; cbn; auto.
 Qed.
 
@@ -989,7 +1100,7 @@ Proof. intros H. cbn. rewrite H. cbn. destruct (is_nil (members s)); repeat spli
 
 (* global fields after a step, by op: used for the two stability lemmas below *)
 Ltac step_cases s o :=
-  destruct o as [k kd|k|k w sv f|k|k|k|cr|exc|]; cbn [step];
+  destruct o as [k kd|k|k w sv f|k|k|k|cr|exc| |]; cbn [step];
   [ destruct (c_phase (calls s k)); [destruct (running s) eqn:?| | | | | | |]
   | destruct (c_phase (calls s k)); [| |destruct (is_left (host s)) eqn:?| | | | |]
   | destruct (c_phase (calls s k));
@@ -1043,7 +1154,7 @@ Proof.
   { intros Hin. apply (I_mem s I) in Hin. destruct Hp as [E|E]; rewrite E in Hin; discriminate. }
   refine (conj _ (conj He Hm)).
   destruct (option_eq_dec_target o k) as [Ht|Ht]; [|now apply step_other].
-  destruct o as [k' kd|k'|k' w sv f|k'|k'|k'|cr|exc|]; cbn [op_target] in Ht; try discriminate;
+  destruct o as [k' kd|k'|k' w sv f|k'|k'|k'|cr|exc| |]; cbn [op_target] in Ht; try discriminate;
     injection Ht as ->; cbn [step].
   1-4: destruct Hp as [-> | ->]; reflexivity.
   - unfold handed_out. destruct Hp as [-> | ->]; reflexivity.
@@ -1121,22 +1232,22 @@ Definition f4_pinned_witness : list op :=
   [ThreadIssue 0 KCoro; HostExit false; ThreadLand 0; ResumeHost].
 
 Theorem portal_exit_joins_refuted_pinned :
-  let s := final step (init false true) f4_pinned_witness in
+  let s := final step (init false true true) f4_pinned_witness in
   host s = HLeft /\ c_phase (calls s 0) = PLanded /\ c_execs (calls s 0) = 0 /\ c_fut (calls s 0) = CPending /\
   members s = [0] /\ snd (step s (TaskStep 0 WNormal None FBlock)) = RStepped.
 Proof. vm_compute. repeat split. Qed.
 
 (* the same history on the repaired tree: the host re-tests the member set and waits *)
 Example ex_f4_history_fixed :
-  let s := final step (init true true) f4_pinned_witness in
+  let s := final step (init true true true) f4_pinned_witness in
   host s = HExitWaiting /\ members s = [0] /\
   let s' := final step s [TaskStep 0 WNormal None (FReturn 7%Z); TaskReap 0; ResumeHost] in
   host s' = HLeft /\ c_phase (calls s' 0) = PReaped /\ c_fut (calls s' 0) = CResult 7%Z.
 Proof. vm_compute. repeat split. Qed.
 
 (* ---------- non-vacuity: concrete reachable states meeting the hypotheses above ---------- *)
-Lemma reach_final f4 fc ops : reach f4 fc (final step (init f4 fc) ops).
-Proof. exists ops. reflexivity. Qed.
+Lemma reach_final f4 fc fn ops : reach f4 fc (final step (init f4 fc fn) ops).
+Proof. exists fn, ops. reflexivity. Qed.
 
 (* a coroutine call and a start_task call complete; the context is left afterwards *)
 Definition ex_ops1 : list op :=
@@ -1145,7 +1256,7 @@ Definition ex_ops1 : list op :=
    TaskStep 0 WNormal None (FReturn 7%Z); TaskStep 1 WNormal None (FRaise 3%Z); TaskReap 0; TaskReap 1; ResumeHost].
 
 Example ex_exit_joins_hyp :
-  let s := final step (init true true) ex_ops1 in
+  let s := final step (init true true true) ex_ops1 in
   host s = HLeft /\ landedp (c_phase (calls s 0)) = true /\ c_phase (calls s 1) = PReaped /\
   c_fut (calls s 0) = CResult 7%Z /\ c_fut (calls s 1) = CExc 3%Z /\ c_status (calls s 1) = CResult 5%Z /\
   c_started (calls s 1) = Some 5%Z /\ c_execs (calls s 0) = 1 /\ c_execs (calls s 1) = 1.
@@ -1158,7 +1269,7 @@ Definition ex_ops2 : list op :=
    TaskStep 0 WNormal None FBlock; TaskStep 1 WNormal None FBlock].
 
 Example ex_future_cancel_hyp :
-  let s := final step (init true true) ex_ops2 in
+  let s := final step (init true true true) ex_ops2 in
   c_phase (calls s 0) = PRunning /\ c_kind (calls s 0) <> KSync /\ c_fut (calls s 0) = CPending /\
   handed_out (calls s 0) = true /\
   let s2 := final step s [FutureCancel 0; CancelLand 0] in
@@ -1169,12 +1280,12 @@ Example ex_future_cancel_hyp :
 Proof. vm_compute. repeat split; discriminate. Qed.
 
 Example ex_inflight_hyp :
-  let s := final step (init true true) (ex_ops2 ++ [FutureCancel 0]) in c_inflight (calls s 0) = true.
+  let s := final step (init true true true) (ex_ops2 ++ [FutureCancel 0]) in c_inflight (calls s 0) = true.
 Proof. vm_compute. reflexivity. Qed.
 
 (* stop, then a new call: refused; a call issued before the exit lands after it: refused at the landing *)
 Example ex_refused_hyp :
-  let s := final step (init true true) [ThreadIssue 0 KSync; Stop false] in
+  let s := final step (init true true true) [ThreadIssue 0 KSync; Stop false] in
   running s = false /\ c_phase (calls s 1) = PNone /\ c_phase (calls s 0) = PIssued /\
   snd (step s (ThreadLand 0)) = RLanded /\
   let s' := final step s [HostExit false; ResumeHost] in
@@ -1183,7 +1294,7 @@ Proof. vm_compute. repeat split. Qed.
 
 (* stop(cancel_remaining=True): the blocked call is interrupted, its future is cancelled, the exit joins it *)
 Example ex_cancel_remaining :
-  let s := final step (init true true)
+  let s := final step (init true true true)
     [ThreadIssue 0 KCoro; ThreadLand 0; TaskStep 0 WNormal None FBlock; Stop true; HostExit false;
      TaskStep 0 WInterrupt None FReraise; TaskReap 0] in
   host s = HExitWaiting /\ members s = [] /\ woken s = true /\ c_fut (calls s 0) = CCancelled /\
@@ -1192,7 +1303,7 @@ Proof. vm_compute. repeat split. Qed.
 
 (* a result that arrives after the caller cancelled the future is dropped, not assigned *)
 Example ex_result_dropped :
-  let s := final step (init true true)
+  let s := final step (init true true true)
     [ThreadIssue 0 KSync; ThreadLand 0; FutureCancel 0; TaskStep 0 WNormal None (FReturn 9%Z)] in
   c_fut (calls s 0) = CCancelled /\ c_outcome (calls s 0) = Some (ORet 9%Z) /\ c_execs (calls s 0) = 1 /\
   c_assigns (calls s 0) = 1 /\ c_invalid (calls s 0) = false.
@@ -1201,7 +1312,7 @@ Proof. vm_compute. repeat split. Qed.
 (* call 0 ends with a cancellation of its own while call 1 is in flight: call 1 is untouched and later delivers its
    value, the group scope is not cancelled, and a later call is still accepted *)
 Example ex_own_cancellation_local :
-  let s := final step (init true true) ex_ops2 in
+  let s := final step (init true true true) ex_ops2 in
   snd (step s (TaskStep 0 WNormal None FCancelOwn)) = RStepped /\
   let s2 := final step s [TaskStep 0 WNormal None FCancelOwn; TaskReap 0; TaskStep 1 WNormal None (FReturn 7%Z);
                           ThreadIssue 2 KSync] in
